@@ -232,6 +232,67 @@ func init() {
 		},
 	})
 
+	facet.Register(facet.F[KeysIn]{
+		Prop: "C06", Name: "ctor/colliding-keys", Quick: 30000, Thorough: 300000, Shards: 4,
+		Rule: "ObjectVal / MapVal / cty.Object called with Go maps whose keys collide after NFC normalisation (precomposed vs decomposed, compatibility singleton, Hangul jamo vs syllable), the colliding entries holding values of different types for objects; whichever entry wins, the result must be well-formed (attribute types match payloads, names normalised). Every case is non-trivial when at least two keys collide",
+		Gen: func(t *rapid.T) KeysIn {
+			in := KeysIn{Map: rapid.Bool().Draw(t, "map")}
+			groups := [][]string{{"\u00e9", "e\u0301"}, {"\u00c5", "A\u030a", "\u212b"}, {"\uac00", "\u1100\u1161"}, {"plain"}, {"other"}}
+			n := rapid.IntRange(2, 5).Draw(t, "n")
+			for i := 0; i < n; i++ {
+				g := rapid.SampledFrom(groups).Draw(t, "group")
+				in.Keys = append(in.Keys, rapid.SampledFrom(g).Draw(t, "key"))
+				in.Kinds = append(in.Kinds, rapid.IntRange(0, 3).Draw(t, "kind"))
+			}
+			return in
+		},
+		Check: func(c *facet.Ctx, in KeysIn) error {
+			vals := []cty.Value{cty.StringVal("s"), cty.NumberIntVal(7), cty.True, cty.ListVal([]cty.Value{cty.StringVal("l")})}
+			m := map[string]cty.Value{}
+			seen := map[string]int{}
+			for i, k := range in.Keys {
+				v := vals[in.Kinds[i]%len(vals)]
+				if in.Map {
+					v = cty.NumberIntVal(int64(i))
+				}
+				m[k] = v
+				seen[spec.NFC(k)]++
+			}
+			if len(m) > len(seen) {
+				c.NonTrivial()
+			}
+			var got cty.Value
+			if guardedPanic(func() {
+				if in.Map {
+					got = cty.MapVal(m)
+				} else {
+					got = cty.ObjectVal(m)
+				}
+			}) {
+				return facet.Failf("ctor-panic", "constructor panicked for keys %q", in.Keys)
+			}
+			if err := wfAll(c, fmt.Sprintf("ObjectVal/MapVal with keys %q", in.Keys), got); err != nil {
+				return err
+			}
+			// every accessor must agree with the type
+			if !in.Map {
+				for name, aty := range got.Type().AttributeTypes() {
+					var av cty.Value
+					if guardedPanic(func() { av = got.GetAttr(name) }) {
+						return facet.Failf("wf/accessor-panic", "GetAttr(%q) panicked on %#v", name, got)
+					}
+					if !av.Type().Equals(aty) {
+						return facet.Failf("wf/elemtype", "attribute %q is declared %#v but GetAttr returns a %#v", name, aty, av.Type())
+					}
+					if guardedPanic(func() { _ = fmt.Sprintf("%#v", av); _ = av.RawEquals(av) }) {
+						return facet.Failf("wf/accessor-panic", "attribute %q of %#v cannot be printed/compared", name, got.Type())
+					}
+				}
+			}
+			return nil
+		},
+	})
+
 	facet.Register(facet.F[wrappedCase]{
 		Prop: "C06", Name: "ambient/ops", Quick: 80000, Thorough: 800000, Shards: 4,
 		Rule: "an operation-method call as explored by C01/C04 (operands by class, weakened to unknowns at any depth, marks placed at any depth); the result of every succeeding call is checked; " + ntRule,
@@ -589,6 +650,13 @@ func init() {
 			return wfAll(c, "gocty.ToCtyValue", v)
 		},
 	})
+}
+
+// KeysIn is the input of ctor/colliding-keys.
+type KeysIn struct {
+	Map   bool     `json:"map"`
+	Keys  []string `json:"keys"`
+	Kinds []int    `json:"kinds"`
 }
 
 // CollideIn is the input of ctor/colliding-sets.
